@@ -1,0 +1,43 @@
+//go:build verif
+
+/*
+Copyright (c) Meta Platforms, Inc. and affiliates.
+Licensed under the Apache License, Version 2.0 (the "License");
+you may not use this file except in compliance with the License.
+You may obtain a copy of the License at
+    http://www.apache.org/licenses/LICENSE-2.0
+Unless required by applicable law or agreed to in writing, software
+distributed under the License is distributed on an "AS IS" BASIS,
+WITHOUT WARRANTIES OR CONDITIONS OF ANY KIND, either express or implied.
+See the License for the specific language governing permissions and
+limitations under the License.
+*/
+
+package metrics
+
+import "time"
+
+// VerifAddWindow pre-registers the sliding window for key with the given sample
+// lifetime, so that AddSample(key, ...) finds it (simulation testing only).
+func (stats *Stats) VerifAddWindow(key string, lifetime time.Duration) error {
+	w, err := newSlidingWindow(lifetime)
+	if err != nil {
+		return err
+	}
+	stats.wlock.Lock()
+	stats.windows[key] = w
+	stats.wlock.Unlock()
+	return nil
+}
+
+// VerifStop stops the cleaner goroutine of every window (simulation testing only).
+func (stats *Stats) VerifStop() {
+	stats.wlock.Lock()
+	for _, w := range stats.windows {
+		select {
+		case w.stopping <- struct{}{}:
+		default:
+		}
+	}
+	stats.wlock.Unlock()
+}
